@@ -136,11 +136,11 @@ PROPS = {
         'rule': 'one case = one G-PP program in the macro profile (0-3 formals with/without defaults, actuals with nested brackets/strings/commas/usages, bodies with continuation lines, '
                 'pasting, stringification, plain strings naming formals, nested usages, redefinition between uses, the three misuse shapes); non-trivial = contains a usage and was compared in full; distinct by hash of source',
         'evaluations_key': 'programs',
-        'floors': {'quick': {'programs': 150000, 'usages': 40000, 'function_like_defines': 40000, 'agree_with_reference': 100000, 'expected_errors': 5000},
+        'floors': {'quick': {'programs': 150000, 'usages': 40000, 'function_like_defines': 40000, 'agree_with_reference': 100000, 'expected_errors': 5000, 'ws_usages_checked': 15000},
                    'thorough': {'programs': 3500000, 'usages': 900000}},
         'technique': 'runtime monitor with executable reference model: reference expander on abstract macro bodies (substitution, defaults, paste, stringify, nested usage with the table at the point of use) compared token-wise with the real output; error variant and payload compared exactly',
         'level_text': 'Generated define/usage programs are expanded both by the real preprocessor and by a reference expander that works on the abstract macro bodies; outputs are compared token-wise and errors by variant and payload.',
-        'level_note': 'White-space amounts are not compared (token-level); shapes the statement is silent about (more actuals than formals, `define inside bodies) are not generated.',
+        'level_note': 'The reference comparison is token-level; white space and comments around a usage are compared byte for byte in a family of its own (usage between two plain tokens, known runs on either side). Shapes the statement is silent about (more actuals than formals) are not generated.',
         'design_ref': '5 / C05',
     },
     'C06': {
